@@ -32,12 +32,19 @@ Step ==
      THEN /\ S' = StateFromInit(e)
           /\ bad' = bad
           /\ stats' = [stats EXCEPT !.events = @ + 1]
-     ELSE LET j == Judge(S, e)
-              match == {S2 \in j.allowed : ProjEq(S2, e.post)}
+     ELSE LET j0 == Judge(S, e)
+              \* an operation that failed because a storage/Lightning error was injected into it is
+              \* judged like a crashed one: all or nothing of its current phase (C07)
+              faulted == e.a.fault /\ ~e.r.ok /\ ~e.r.panic
+              j == IF faulted
+                   THEN [tags |-> {}, allowed |-> CrashOutcomes(S, e.ev, e.a, IF "ln" \in DOMAIN e.a THEN e.a.ln ELSE << >>)]
+                   ELSE IF e.a.fault THEN [j0 EXCEPT !.tags = {t \in @ : t[2] # "refused-without-cause"}] ELSE j0
+              blind == e.ev = "crash" /\ ~e.r.ok   \* the mint could not be restarted: no projection
+              match == IF blind THEN j.allowed ELSE {S2 \in j.allowed : ProjEq(S2, e.post)}
               cand == IF match # {} THEN CHOOSE S2 \in match : TRUE ELSE CHOOSE S2 \in j.allowed : TRUE
               diffTags == IF match # {} THEN {}
                           ELSE {<<DiffProp(e, d), "post-state-differs:" \o e.ev \o ":" \o d>> : d \in Diffs(cand, e.post)}
-              S3 == Adopt(cand, e.post)
+              S3 == IF blind THEN cand ELSE Adopt(cand, e.post)
               all == j.tags \cup diffTags \cup InvTags(S, S3)
           IN /\ S' = S3
              /\ bad' = bad \cup {<<t[1], e.tr, e.i, t[2]>> : t \in all}
